@@ -199,6 +199,11 @@ type opSelect struct {
 	hasDefault bool
 	pri        bool // prioritised: only the first ready case (in source order) is enabled
 	desc       string
+	// parkedAt > 0: at an earlier decision point no case was ready, i.e. the
+	// goroutine really went to sleep on this select. Go commits a sleeping select
+	// to the first case another goroutine makes ready (the waker dequeues it), so
+	// such a select is resumed before anything else happens (sched.go, enabledAlts).
+	parkedAt int
 }
 
 func caseReady(s *Sched, t *Task, c Case) bool {
